@@ -37,6 +37,8 @@ type C17Spec struct {
 	BadFlag  string   `json:"bad_flag,omitempty"`
 	Style    int      `json:"style"` // flag syntax variation
 	Spaces   bool     `json:"spaces,omitempty"`
+	Commas   int      `json:"commas,omitempty"`        // 1 trailing, 2 leading, 3 doubled comma in class lists (empty elements name no class)
+	BlankExclude bool `json:"blank_exclude,omitempty"` // --exclude=" ": an explicit list naming no class (exclude nothing)
 	TapeSeed uint64   `json:"tape_seed"`
 }
 
@@ -81,6 +83,12 @@ func genC17(r *Rng, seed uint64) *C17Spec {
 			s.Exclude = pickClasses(2)
 		}
 		s.Spaces = r.Chance(0.25)
+		if r.Chance(0.15) {
+			s.Commas = 1 + r.Intn(3)
+		}
+		if s.Exclude == nil && r.Chance(0.1) {
+			s.BlankExclude = true
+		}
 	default:
 		s.Sub = "words"
 		if r.Chance(0.7) {
@@ -167,7 +175,16 @@ func (s *C17Spec) argv(filePath string) []string {
 				return strings.Join(cs, " , ")
 			}
 		}
-		return strings.Join(cs, ",")
+		out := strings.Join(cs, ",")
+		switch s.Commas {
+		case 1:
+			out += ","
+		case 2:
+			out = "," + out
+		case 3:
+			out = strings.Replace(out, ",", ",,", 1) + ","
+		}
+		return out
 	}
 	if s.Length != nil {
 		add("length", fmt.Sprint(*s.Length))
@@ -180,6 +197,8 @@ func (s *C17Spec) argv(filePath string) []string {
 	}
 	if s.Exclude != nil {
 		add("exclude", join(s.Exclude))
+	} else if s.BlankExclude {
+		add("exclude", " ")
 	}
 	if s.Size != nil {
 		add("size", fmt.Sprint(*s.Size))
@@ -242,6 +261,9 @@ func (s *C17Spec) expectation(c *Ctx, tape []byte) cliExpect {
 	mkTape := func() *Tape { return NewTape(TapeSpec{Mode: "raw", Words: words, Default: "zero"}) }
 	if s.Sub == "characters" {
 		cfg := CharCfg{Length: 20, Allow: bitsOf(s.Allow, 15), Require: bitsOf(s.Require, 0), Exclude: bitsOf(s.Exclude, 16)}
+		if s.BlankExclude && s.Exclude == nil {
+			cfg.Exclude = 0 // an explicit value that names no class replaces the default
+		}
 		if s.Length != nil {
 			cfg.Length = *s.Length
 		}
